@@ -24,7 +24,7 @@ CLAIMED = {
                  'Choquet grouped computation = textbook integral when sorted neighbours are equal or > 1e-5 apart, within n x 1e-5 otherwise; parsed '
                  'capacities total on the power set and in [0,1]; weighted sum: ws_value_refuted (the pinned code ignores the weights; recorded finding D2) '
                  'with the characterisation of what it computes. Tie: checker C03 recomputes the aggregate from each returned entry and the final '
-                 '(post-bias) parameters dumped from the running code; values correspondence model/code. The state the method is evaluated on must be coherent (Check/Stage.v inv: every criterion of the state has a value and a parameter), judged on every response.',
+                 '(post-bias) parameters dumped from the running code; values correspondence model/code. The state the method is evaluated on must be coherent (Check/Stage.v inv: every criterion of the state has a value and a parameter), judged on every response. Checker soundness (StageSoundFacts.C03_ok_sound): a passed check on observed entries implies the declarative aggregate statement.',
                  'arithmetic theorems over Q, not binary64; comparison up to 1.5e-8 + 1e-9 relative.',
                  'Coq proof over Qc + vm_compute checker on Go outputs; known finding for weightedSum', 'C03'),
     'C04': claim('Theorems (Properties/C04.v, any carrier with OrdLaws): the model of Ranking() is the permutation sorted by (rounded value desc, id asc); links = same '
@@ -46,7 +46,7 @@ CLAIMED = {
                  'distillations; identical rows => identical classes; credibility monotone for validated constant thresholds; electre_dominance: the model satisfies the '
                  'dominance checker; weights scaling leaves credibility unchanged; listing order: the credibility matrix of a permuted listing is the renamed matrix, every distillation '
                  'commutes with renaming and does not depend on how a set is listed, hence all indices and links (as sets) are unchanged (electre_evaluate_rename). Tie: dominance/equality checker on every pair of every real response; metamorphic '
-                 'groups (listing order, k x 2^m) on the real code.',
+                 'groups (listing order, k x 2^m) on the real code. Checker soundness and completeness (ElectreDomSoundFacts.C06_ok_sound / C06_spec_complete).',
                  'constant thresholds (the documented domain); a counterexample for slope < -1 thresholds is recorded in Proofs/ElectreOrderFacts.v.',
                  'Coq proof over Qc + vm_compute checker and metamorphic runs on Go outputs', 'C06'),
     'C11': claim('Theorems (Properties/C11.v, exact rationals): tournament invariant of the fold; majority_passes_checker: winner first; every other entry names the opponent it last met, '
@@ -70,7 +70,7 @@ CLAIMED = {
                  'Coq proof of the acceptance walk + vm_compute correspondence and checker on Go outputs', 'C13'),
     'C14': claim('Theorems (Properties/C14.v, exact rationals): validation = documented ranges; four update rules; strict monotonicity; threshold formula; declared range first; '
                  'finiteness with explicit bounds; consecutive levels strictly monotone. Tie: the real level sources (as wired in main.go) called directly and compared level by level with the '
-                 'model, plus a series checker on the returned levels; every series is generated twice from the same data (must be equal, data deep-compared before/after); parameters include decimal steps whose float accumulation ends a last bit below the cap.',
+                 'model, plus a series checker on the returned levels; every series is generated twice from the same data (must be equal, data deep-compared before/after); parameters include decimal steps whose float accumulation ends a last bit below the cap. Checker soundness (LevelSoundFacts.C14_ok_sound_property_Qc): a passed check on observed levels implies the documented series, its length included.',
                  'binary64 may differ from Q in the count where a decimal series crosses its bound by less than an ulp; the model on binary64 follows Go.',
                  'Coq proof over Qc + vm_compute correspondence of the level sources', 'C14'),
 }
@@ -83,26 +83,26 @@ CLAIMED.update({
                  'or package-level math/rand; decide_depends_on_seeds: two environments (random stream per seed, exp table) that agree on the seeds carried in the request give the same '
                  'response, streams of other seeds are never consulted, no bias changes the method seed. Tie: every request is sent to the real service again in the same process, '
                  'after other requests and to fresh processes and must be answered byte-identically; systematic histories (each request before and after every other of its pool, '
-                 'same-method parameter variants) against processes that served nothing else; full correspondence model/service.',
+                 'same-method parameter variants) against processes that served nothing else; full correspondence model/service. Histories also hold rejected requests (unknown / near-miss names, mistyped parameters) between requests that rely on the documented defaults of every optional parameter.',
                  'partial for the runtime part: scheduler, clock and process state are checked by repetition and by the regenerated symbol scan, not proved.',
                  'Coq proof of map-order independence + regenerated inventory obligation + repetition across processes', 'C02'),
     'C07': claim('Theorems (Properties/C07.v): every bias maps coherent working data to coherent working data (every alternative has every current criterion, parameters cover them), lifted '
                  'to every bias sequence and to the state the method is evaluated on; frame: only what is reported changes; alternatives and their split never change; evaluate_total: on coherent data of the right parameter kind no method fails with a '
                  'combination error (missing value / weight / criterion, collision, wrong kind, index), side conditions explicit and witnessed; the same for fatigue, omission, reversal, inline '
                  'anchoring. Tie: every traced bias application of the real code is compared with the model step (state and report), and inv / frame / crits_as_reported (criteria after = before '
-                 '- reported omissions + reported additions) are evaluated on the real states; a combination that fails in the code while the model succeeds is reported with its request (per stage, and for the whole request: every failing request is judged against the model of the whole request on the same seeded draws).',
+                 '- reported omissions + reported additions) are evaluated on the real states; a combination that fails in the code while the model succeeds is reported with its request (per stage, and for the whole request: every failing request is judged against the model of the whole request on the same seeded draws). Checker soundness (StageSoundFacts: inv_iff, frame_ok_iff) next to crits_as_reported_sound.',
                  'inv after a criterion-adding bias needs the parameter object to know the same criteria as the state (sync), established by prepare and preserved; totality of concealment, '
                  'mixing and new-criterion anchoring is decided by correspondence, not proved (witnesses of what they need beyond coherence in Proofs/TotalityFacts.v).',
                  'Coq invariant proof over bias sequences + per-stage correspondence on traced Go runs', 'C07'),
     'C08': claim('Theorems (Properties/C08.v): one echo per enabled bias in order with name and probability; disabled = absent (even unknown names); position i fires iff its '
                  'probability exceeds the i-th draw, independently of all other entries, monotonically; 1 always, 0 never; unfired = state unchanged, props null; exact frequency '
-                 'ceil(p 2^53) on the Float64 grid. Tie: echo checker against the seed stream of the Go generator; metamorphic: insert disabled bias, replace all other biases, set p to 0/1.',
+                 'ceil(p 2^53) on the Float64 grid. Tie: echo checker against the seed stream of the Go generator; metamorphic: insert disabled bias, replace all other biases, set p to 0/1. Checker soundness and completeness (EchoSoundFacts.C08_ok_iff_spec) with the firing consequences as corollaries.',
                  'uniformity of math/rand on its 2^53 grid is an assumption; the only exception (criteria mixing with fewer than two criteria fires and reports nothing) is part of the statement.',
                  'Coq proof of the firing rule + echo checker and metamorphic runs on Go outputs', 'C08'),
     'C09': claim('Theorems (Properties/C09.v): a bias sequence is a prefix followed by the rest from the state handed on; the report of a bias is fixed by the biases up to it; fatigue, '
                  'reversal, omission report exactly what they hand on; apply_bias_faithful / process_biases_faithful: EVERY bias reports what the state handed on holds, along every sequence '
                  '(checker report_faithful, also evaluated on every traced stage of the implementation). Tie (the part about Go\'s heap): traced runs dump every state and report at return and again after the whole '
-                 'decision; request values deep-compared before/after; histories of calls re-using the same decoded Go values with every earlier result deep-compared after every later call.',
+                 'decision; request values deep-compared before/after; histories of calls re-using the same decoded Go values with every earlier result deep-compared after every later call. Histories also hold rejected requests between requests that rely on the documented defaults of every optional parameter.',
                  'partial: absence of hidden state / aliasing in the Go program is established by the history correspondence on the sampled histories, not proved.',
                  'Coq proof of report stability + history correspondence with deep comparisons', 'C09'),
     'C10': claim('Theorems (Properties/C10.v): in the effect model, threads that never write shared locations nor touch another thread\'s private ones end, under every interleaving, in '
@@ -114,19 +114,19 @@ CLAIMED.update({
     'C15': claim('Theorems (Properties/C15.v, exact rationals): k = clamp(floor(n ratio)); omitted = first k of the ordering; all five orderings are permutations; weakest/strongest soundness w.r.t. '
                  'the listener\'s importance; strongest = rev weakest; first-pick interval of weakestByProbability decreasing in importance; omission_passes_checker. Tie: per-stage '
                  'correspondence + checker on traced omissions, and the decision is compared with the decision for the request with the omitted criteria deleted. '
-                 'omission_state_reduced_exact / omit_equals_reduced*: the state after omission IS the state prepared from the reduced request, so the decisions are equal (also with further biases).',
+                 'omission_state_reduced_exact / omit_equals_reduced*: the state after omission IS the state prepared from the reduced request, so the decisions are equal (also with further biases). Checker soundness and completeness (OmissionSoundFacts.C15_ok_iff).',
                  'Choquet needs comma-free criterion ids (choquet_comma_refuted is the witness); OWA equal up to the order of the weight list; OWA / generated levels with FURTHER biases not claimed.',
                  'Coq proof over Qc + per-stage correspondence and reduced-request comparison', 'C15'),
     'C16': claim('Theorems (Properties/C16.v, exact rationals): v -> max + min - v for every known alternative on every selected criterion with the declared / currently observed range; frame; '
                  'range preserved; involution; reversal_passes_checker. Tie: per-stage correspondence + checker on traced reversals (all orderings, with and without declared ranges, '
-                 'considered = / subset of known, after other biases, a single criterion with any weight under every ordering).', 'pairwise distinct alternative and criterion ids.',
+                 'considered = / subset of known, after other biases, a single criterion with any weight under every ordering).', 'pairwise distinct alternative and criterion ids. Checker soundness (ReversalSoundFacts.C16_ok_sound).',
                  'Coq proof over Qc + per-stage correspondence on traced Go runs', 'C16'),
     'C17': claim('Theorems (Properties/C17.v, exact rationals): |v\' - v| <= |f v| for every stream; f = 0 identity; both signs; bounding = raise to 0 then clip into the centred scaled range, '
-                 'monotone; frame and faithful report; fatigue_passes_checker. Tie: per-stage correspondence (value and sign streams of the Go generator, math.Exp as oracle) + checker; the report read again after the whole decision (what the response carries) must still be what fatigue handed on.',
+                 'monotone; frame and faithful report; fatigue_passes_checker. Tie: per-stage correspondence (value and sign streams of the Go generator, math.Exp as oracle) + checker; the report read again after the whole decision (what the response carries) must still be what fatigue handed on. Checker soundness (FatigueSoundFacts.C17_ok_sound).',
                  'draws in [0,1); exp taken from Go.', 'Coq proof over Qc + per-stage correspondence on traced Go runs', 'C17'),
     'C19': claim('Theorems (Properties/C19.v, exact rationals): reference point = coefficient-weighted best/worst per criterion; mapped differences; inline value and reported difference; '
                  'not-considered only if asked; zero functions identity; new-criterion value with normalised weights; anchoring_passes_checker for both appliers. Tie: per-stage '
-                 'correspondence (exp oracle) + checker on traced anchoring applications.', 'positive coefficients in the theorem; with a coefficient of 0 (no weighted comparison exists: a cost value is divided by it) the checker only asks the reference value to be one of the anchoring alternatives\' values (zero_coefficient_not_judged in Proofs/AnchoringFacts.v); stages on which binary64 itself leaves the finite range are counted, not judged.',
+                 'correspondence (exp oracle) + checker on traced anchoring applications.', 'positive coefficients in the theorem; with a coefficient of 0 (no weighted comparison exists: a cost value is divided by it) the checker only asks the reference value to be one of the anchoring alternatives\' values (zero_coefficient_not_judged in Proofs/AnchoringFacts.v); stages on which binary64 itself leaves the finite range are counted, not judged. Checker soundness (AnchoringSoundFacts.C19_ok_sound).',
                  'Coq proof over Qc + per-stage correspondence on traced Go runs', 'C19'),
     'C20': claim('Theorems (Properties/C20.v): decide is total (ranking with echoes, or rejection); one rejection lemma per documented constraint (31), incl. fired biases with bad '
                  'properties; termination of ELECTRE distillation under the validated domain is in C05. Tie: the unmodified service under a memory limit: valid stream, every documented '
@@ -141,7 +141,7 @@ CLAIMED.update({
     'C18': claim('Theorems (Properties/C18.v, exact rationals): concealment appends one fresh gain criterion, values for every known alternative, old values untouched, values inside the '
                  'scaled reference range; reference criterion among the existing ones (three strategies); new weight = u x reference weight, u in [0,1); mixing: no-op below two '
                  'criteria, formula, betweenness, distinct components, components in [0,T]; both pass the checker. Tie: per-stage correspondence + checker on traced concealment / mixing '
-                 'applications inside random bias sequences (repeated application included).',
+                 'applications inside random bias sequences (repeated application included). Checker soundness (AdditionSoundFacts.C18_ok_sound).',
                  'distinct alternative ids. not_used_name_fresh: the generated id is never an existing id (defect D9 of the pinned tree, repaired by a fix: commit).',
                  'Coq proof over Qc + per-stage correspondence on traced Go runs', 'C18'),
 })
